@@ -374,6 +374,16 @@ theorem genCond_nodup (c : Cond) : ∀ (g : GState) (negate : Bool) (label : Lbl
   | truth v => intro g negate label; exact hz _ _ _ _
   | nottruth v => intro g negate label; exact hz _ _ _ _
   | not c ih => intro g negate label; simp only [genCond]; exact ih ..
+  | cmpE op e b eLeft =>
+    intro g negate label
+    simp only [genCond, cmpETest]
+    split
+    · split <;> simp [labels_treeLines]
+    · simp [labels_treeLines, branchInstr_nodup]
+  | truthE e =>
+    intro g negate label
+    simp only [genCond, truthETest]
+    by_cases h : e.topArithm = true <;> simp [labels_treeLines, h]
   | and a b iha ihb =>
     intro g negate label
     cases negate with
@@ -752,6 +762,33 @@ theorem genCond_targets (c : Cond) : ∀ (g : GState) (negate : Bool) (label : L
   | truth v => intro g negate label; exact hz _ _ _ _
   | nottruth v => intro g negate label; exact hz _ _ _ _
   | not c ih => intro g negate label; simp only [genCond]; exact ih g (!negate) label
+  | cmpE op e b eLeft =>
+    intro g negate label l hl
+    have htt : targets (treeLines e) = [] := by
+      unfold treeLines
+      generalize treeOps e = t
+      induction t with
+      | nil => rfl
+      | cons x xs ih => simpa [targets] using ih
+    simp only [genCond, cmpETest] at hl ⊢
+    split at hl
+    · rename_i hz0
+      simp only [hz0, if_true]
+      split at hl <;> rename_i hop <;> simp [hop, htt, targets, labels_treeLines] at hl ⊢ <;> exact hl
+    · rename_i hz0
+      simp only [hz0, if_false, Bool.false_eq_true]
+      simp [htt, targets, labels_treeLines] at hl ⊢
+      exact hb _ _ _ l hl
+  | truthE e =>
+    intro g negate label l hl
+    have htt : targets (treeLines e) = [] := by
+      unfold treeLines
+      generalize treeOps e = t
+      induction t with
+      | nil => rfl
+      | cons x xs ih => simpa [targets] using ih
+    simp only [genCond, truthETest] at hl ⊢
+    by_cases h : e.topArithm = true <;> simp [htt, targets, labels_treeLines, h] at hl ⊢ <;> exact hl
   | and a b iha ihb =>
     intro g negate label l hl
     cases negate with
